@@ -373,16 +373,31 @@ def stream_scripts(rng):
 
 # ------------------------------------------------------------------ running one script
 def run_proc(exe, script, timeout=600):
+    """run a line-protocol program (harness or Lean driver) on a script -> (rc, stdout lines, stderr tail).
+    Same discipline as Ctx.run_lines (the workers of this module run in separate processes and have no
+    ctx): a run that exceeds its limit is repeated ALONE (build.Lock("confirm-hang"): one confirmation at a
+    time across all checks of this tree) with three times the limit; only a second expiry is rc 124.  A
+    loaded machine can therefore not turn a healthy run into a reported hang."""
+    from .. import build
     e = dict(os.environ)
     e.setdefault("ASAN_OPTIONS", "detect_leaks=1:abort_on_error=0:allocator_may_return_null=1")
     e.setdefault("UBSAN_OPTIONS", "print_stacktrace=1")
-    try:
+
+    def once(limit):
         r = subprocess.run([exe], input=script, stdout=subprocess.PIPE, stderr=subprocess.PIPE, text=True,
-                           timeout=timeout, env=e, errors="replace")
+                           timeout=limit, env=e, errors="replace")
         return r.returncode, r.stdout.splitlines(), r.stderr[-3000:]
+
+    try:
+        return once(timeout)
+    except subprocess.TimeoutExpired:
+        pass
+    try:
+        with build.Lock("confirm-hang"):
+            return once(3 * timeout)
     except subprocess.TimeoutExpired as ex:
         so = ex.stdout.decode(errors="replace") if isinstance(ex.stdout, bytes) else (ex.stdout or "")
-        return 124, so.splitlines(), "TIMEOUT after %ss" % timeout
+        return 124, so.splitlines(), "TIMEOUT after %ss (confirmed alone with %ss)" % (timeout, 3 * timeout)
 
 
 class Codec:
